@@ -808,6 +808,7 @@ impl LdapConnAsync {
                                     self.searchmap.remove(&msgid);
                                     let mut msgmap = self.msgmap.lock().expect("msgmap mutex (abandon)");
                                     msgmap.1.remove(&id);
+                                    msgmap.1.remove(&msgid);
                                 },
                                 LdapOp::Unbind => {
                                     if let Err(e) = self.stream.get_mut().shutdown().await {
@@ -876,6 +877,8 @@ impl LdapConnAsync {
                         }
                         if remove {
                             self.searchmap.remove(&id);
+                            let mut msgmap = self.msgmap.lock().expect("msgmap mutex (search done)");
+                            msgmap.1.remove(&id);
                         }
                     } else if let Some(tx) = self.resultmap.remove(&id) {
                         if let Err(e) = tx.send((tag, controls)) {
